@@ -2,6 +2,8 @@ package simrt
 
 import (
 	"fmt"
+	"math"
+	"reflect"
 	"sort"
 )
 
@@ -51,10 +53,110 @@ func sortKeys[K comparable](keys []K) {
 	case []float64:
 		sort.Float64s(ks) // NaNs first; they are told apart by nothing a program can see
 	default:
-		sort.Slice(keys, func(i, j int) bool {
-			return fmt.Sprintf("%#v", keys[i]) < fmt.Sprintf("%#v", keys[j])
-		})
+		// Keys without a natural order (structs, pointers, interfaces): order them
+		// by a rendering of their contents in which addresses do not appear.
+		// Pointer keys are rendered through what they point at; two keys that
+		// render alike keep the runtime's (unrepeatable) relative order, which
+		// the run notes so that the evidence can say how often that happened.
+		canon := make([]string, len(keys))
+		for i := range keys {
+			canon[i] = canonical(reflect.ValueOf(&keys[i]).Elem(), 3)
+		}
+		// pointers to objects whose creation the run has seen (simrt.Born, placed
+		// by simgen at every &T{...}) are ordered by birth, which is part of the
+		// replayable schedule and tells apart objects that look alike
+		if s := simTask(); s != nil {
+			for i := range keys {
+				v := reflect.ValueOf(&keys[i]).Elem()
+				if v.Kind() == reflect.Interface && !v.IsNil() {
+					v = v.Elem()
+				}
+				if v.Kind() == reflect.Ptr && !v.IsNil() {
+					if b := s.birthOf(v.Pointer()); b > 0 {
+						canon[i] = fmt.Sprintf("born%012d", b)
+					}
+				}
+			}
+		}
+		idx := make([]int, len(keys))
+		for i := range idx {
+			idx[i] = i
+		}
+		sort.SliceStable(idx, func(a, b int) bool { return canon[idx[a]] < canon[idx[b]] })
+		ties := false
+		out := make([]K, len(keys))
+		for i, j := range idx {
+			out[i] = keys[j]
+			if i > 0 && canon[idx[i-1]] == canon[j] {
+				ties = true
+			}
+		}
+		copy(keys, out)
+		if ties {
+			if s := simTask(); s != nil {
+				s.Stats.AmbiguousRanges++
+			}
+		}
 	}
+}
+
+// canonical renders a value without any address: basic values as they are,
+// strings quoted, maps with sorted keys, pointers and interfaces through their
+// target (down to a small depth), everything else by its kind.
+func canonical(v reflect.Value, depth int) string {
+	if !v.IsValid() {
+		return "<nil>"
+	}
+	switch v.Kind() {
+	case reflect.Bool:
+		return fmt.Sprint(v.Bool())
+	case reflect.Int, reflect.Int8, reflect.Int16, reflect.Int32, reflect.Int64:
+		return fmt.Sprint(v.Int())
+	case reflect.Uint, reflect.Uint8, reflect.Uint16, reflect.Uint32, reflect.Uint64:
+		return fmt.Sprint(v.Uint())
+	case reflect.Float32, reflect.Float64:
+		return fmt.Sprintf("%x", math.Float64bits(v.Float()))
+	case reflect.String:
+		return fmt.Sprintf("%q", v.String())
+	case reflect.Ptr, reflect.Interface:
+		if v.IsNil() {
+			return "nil"
+		}
+		if depth == 0 {
+			return "&"
+		}
+		return "&" + canonical(v.Elem(), depth-1)
+	case reflect.Struct:
+		if depth == 0 {
+			return "{}"
+		}
+		out := "{"
+		for i := 0; i < v.NumField(); i++ {
+			out += canonical(v.Field(i), depth-1) + ","
+		}
+		return out + "}"
+	case reflect.Array, reflect.Slice:
+		if depth == 0 || v.Len() > 64 {
+			return fmt.Sprintf("[%d]", v.Len())
+		}
+		out := "["
+		for i := 0; i < v.Len(); i++ {
+			out += canonical(v.Index(i), depth-1) + ","
+		}
+		return out + "]"
+	case reflect.Map:
+		if depth == 0 || v.Len() > 64 {
+			return fmt.Sprintf("map[%d]", v.Len())
+		}
+		var parts []string
+		it := v.MapRange()
+		for it.Next() {
+			parts = append(parts, canonical(it.Key(), depth-1)+":"+canonical(it.Value(), depth-1))
+		}
+		sort.Strings(parts)
+		return "map" + fmt.Sprint(parts)
+	}
+	return v.Kind().String()
 }
 
 // MapIter drives a rewritten `for k, v := range m`.
